@@ -282,6 +282,40 @@ func (x *Exec) addModel(m []uint64) {
 	x.modelPool = append(x.modelPool, m)
 }
 
+// cheapInfeasible reports true only when pc and cond is certainly unsatisfiable, using
+// syntactic complement detection and the unary box domain (no solver).
+func (x *Exec) cheapInfeasible(s *State, cond *smt.Term) bool {
+	neg := x.Ctx.Not(cond)
+	var flat []*smt.Term
+	for _, p := range s.PC {
+		flat = flattenAnd(p, flat)
+	}
+	for _, p := range flat {
+		if p == neg {
+			return true
+		}
+	}
+	var cflat []*smt.Term
+	cflat = flattenAnd(cond, cflat)
+	for _, cc := range cflat {
+		v, set, ok := x.Ctx.Table(cc)
+		if !ok {
+			continue
+		}
+		box := set
+		for _, p := range flat {
+			if pv, pset, pok := x.Ctx.Table(p); pok && pv == v {
+				box = box.And(pset)
+				if box.Empty() {
+					x.BoxDecided++
+					return true
+				}
+			}
+		}
+	}
+	return false
+}
+
 func flattenAnd(t *smt.Term, out []*smt.Term) []*smt.Term {
 	if t.Op == smt.OpAnd {
 		out = flattenAnd(t.A[0], out)
@@ -625,6 +659,12 @@ func (x *Exec) pushFrame(s *State, fn *ssa.Function, args []Value, env []Value, 
 // popFrame returns from the top frame with result.
 func (x *Exec) popFrame(s *State, result Value) {
 	f := s.top()
+	if f.MemoKey != "" {
+		if s.Memo == nil {
+			s.Memo = map[string]Value{}
+		}
+		s.Memo[f.MemoKey] = result
+	}
 	s.Frames = s.Frames[:len(s.Frames)-1]
 	if len(s.Frames) == 0 {
 		if x.onRootReturn != nil {
@@ -718,7 +758,7 @@ func (x *Exec) forkOnL(s *State, outs []Outcome, assign func(c *State, o Outcome
 	}
 	for _, o := range outs {
 		if lazy && !x.Concrete {
-			if o.Cond == smt.False {
+			if o.Cond == smt.False || x.cheapInfeasible(s, o.Cond) {
 				continue
 			}
 			var m []uint64
